@@ -165,6 +165,9 @@ def jobs_for(tier):
     add(n=2, mode="qr", max_iterations=2)
     add(n=2, mode="qr", max_iterations=3)
     if tier == "thorough":
+        for m_ in ("eigh", "diag", "zero-estimate"):
+            add(n=4, mode=m_, max_iterations=2)
+        add(n=4, mode="qr", max_iterations=1)
         add(n=3, mode="qr", max_iterations=2)
         add(n=3, mode="qr", max_iterations=3)
         add(n=2, mode="qr", max_iterations=4)
@@ -177,7 +180,7 @@ def run(tier, seed, argv):
 
     rep = Report("C12", tier, seed)
     jobs = jobs_for(tier)
-    rep.bounds = dict(n="2..3 (1x1 concrete)", max_iterations="<=3 (n=2), 1 (n=3) quick; <=4 / <=3 thorough", tolerance="symbolic >= 0", estimate="arbitrary non-zero matrix / zero matrix")
+    rep.bounds = dict(n="2..3 (1x1 concrete); thorough: 4 for the dispatch modes and one QR step", max_iterations="<=3 (n=2), 1 (n=3) quick; <=4 / <=3 thorough", tolerance="symbolic >= 0", estimate="arbitrary non-zero matrix / zero matrix")
     rep.assumptions = ["torch.linalg.eigh and torch.linalg.qr are environment stubs (fresh outputs; orthonormality, ordering and diagonalisation are LAPACK's contract and not decided here)",
                        "the fixed-point clause (an exact eigenbasis is kept up to signs) needs QR uniqueness and is not decided", "real arithmetic"]
     rep.absorb("eigenvectors", par.run_jobs(jobs, chunk=8))
